@@ -97,6 +97,41 @@ CLAIMED = {
             'default name seeding (reproducible on repeated calls, consistent between observables of one chain) and the refusal of under-determined '
             'imports are checked on the implementation.',
             'Lean kernel; standard axioms; scipy lstsq in import_bootstrap and numpy default_rng by contract.', '5 C13'),
+    'C06': ('Lean 4 theorems (Cauchy-Schwarz over replicas => |corr| <= 1, Gram form => PSD, permutation conjugation, trace under orthogonal conjugation, Cholesky inverse identity, error band quadratic form, external covariance J1 S J2^T) + model/impl correspondence of covariance() + statement oracle on the implementation',
+            'Proof: the algebraic facts the statement rests on are proved for every matrix size, number of replicas and ensembles: the per-ensemble '
+            'normalisation sum_r sqrt(g11 g22) bounds the cross term (entries in [-1,1], unit diagonal), identical configurations give a Gram matrix '
+            '(positive semi-definite, also after rescaling by the errors), reordering the list conjugates by the permutation, eigenvalue smoothing with '
+            'orthonormal vectors preserves the trace, the triangular solve of the Cholesky factor inverts D^-1 corr D^-1, the error band is sqrt(g^T C g), '
+            'covariance inputs contribute J1 Sigma J2^T and disjoint ensembles contribute 0. The executable model of covariance() is compared with '
+            'pyerrors and every clause of the statement is evaluated on the implementation for each generated list in every order.',
+            'Lean kernel; standard axioms; LAPACK eigh / cholesky / solve_triangular by contract (reconstruction residuals measured each run); gamma-method errors are C02; generator-bounded search.', '5 C06'),
+    'C07': ('Lean 4 theorems (Mathlib Matrix: normal equations unique, chi-square decomposition => minimiser, -H^-1 M = GLS sensitivity, row-permutation invariance, priors = augmented rows, dof) + closed-form GLS oracle with per-configuration fluctuations evaluated on the implementation',
+            'Proof: for a model linear in its parameters the normal equations have the unique solution (A^T W A)^-1 A^T W y, chi-square decomposes as '
+            'chi2(p*) + |L A (p - p*)|^2 so p* is the minimiser, the implicit-function sensitivity -H^-1 M the code propagates with equals the GLS map '
+            '(A^T W A)^-1 A^T W, row permutations leave estimator / sensitivities / chi-square unchanged, priors act as augmented rows and dof counts them. '
+            'Every generated fit (single / combined, priors in all forms, correlated, all minimisers, num_grad, permuted) is compared with the closed form: '
+            'values, every per-configuration fluctuation by configuration number, every covariance-input gradient, chi-square, dof, p-value.',
+            'Lean kernel; standard axioms; scipy least_squares / minimize / iminuit (contract: stationary point, measured), autograd / numdifftools Hessians, scipy.stats chi2 by contract; the residual-vector assembly of fits.py is tied by the oracle comparison, not by a Lean model.', '5 C07'),
+    'C08': ('Lean 4 theorems (implicit-function rule algebraically H X + M = 0 => X = -H^-1 M, one-parameter analytic chain rule, block slices of the ODR Hessian, TLS -> ordinary LS limit) + independent chi-square / finite-difference implicit-function oracle evaluated on the implementation',
+            'Proof: a sensitivity X satisfying the differentiated stationarity condition H X + M = 0 with invertible H is -H^-1 M; in one parameter the '
+            'analytic implicit-function derivative follows from the chain rule; the code\'s block slicing of the total-least-squares mixed Hessian selects the '
+            'd(p, xhat)/dy and /dx blocks for every n_parms and m; with vanishing abscissa errors the total-least-squares stationarity equations reduce to the '
+            'ordinary normal equations. On the implementation: stationarity of the returned point, propagated fluctuations against -H^-1 M from an '
+            'independently coded chi-square, and TLS with negligible x errors against the ordinary fit.',
+            'Lean kernel; standard axioms; minimisers / ODR / autograd Hessians by contract (gradient norm measured); the multivariate analytic implicit-function theorem is used through its algebraic consequence; finite-difference oracle tolerance 2e-4 of the parameter error.', '5 C08'),
+    'C09': ('Lean 4 theorems (implicit differentiation -f_d/f_x along the root curve, inverse-function rule, fundamental theorem of calculus at both limits with signs, derivative under the integral for the polynomial / exponential families, gradient order pobs ++ bobs) + derived_observable model correspondence + closed-form inverse / antiderivative oracle',
+            'Proof: along a root curve f(x(d), d) = 0 with f_x != 0 the derivative is -f_d/f_x (hence 1/g\'(x) for f = g(x) - d); the integral has derivative '
+            '+f(b) in the upper and -f(a) in the lower limit and, for the families used, the integral of df/dp in a parameter; the gradient list is ordered '
+            'parameters then limits. The model of derived_observable with the caller\'s gradient is run on every case and compared with pyerrors, and the '
+            'closed-form inverse / antiderivative is applied to the inputs by configuration number and compared in value and every fluctuation.',
+            'Lean kernel; standard axioms; scipy fsolve / quad and autograd jacobians by contract (residuals measured each run); generator-bounded search.', '5 C09'),
+    'C10': ('Lean 4 theorems (product rule of the matrix product, real block embedding of complex matrices is a ring homomorphism compatible with inverse, first-order identities characterising the propagated inverse / Cholesky factor / determinant / symmetric eigenpairs / pseudo-inverse, second-order jackknife remainder) + derived_observable model correspondence + identity oracle in Obs arithmetic',
+            'Proof: d(AB) = dA B + A dB entrywise for any shapes; [[A,-B],[B,A]] embeds complex matrices as a ring homomorphism that commutes with inversion; '
+            'dB = -A^-1 dA A^-1 is the unique solution of dA B + A dB = 0, dL L^T + L dL^T = dA determines the Cholesky factor\'s variation uniquely, '
+            'd det = det tr(A^-1 dA) (cofactor form), the differentiated eigen-equations fix d lambda = v^T dA v, the Moore-Penrose identities hold to first '
+            'order, and the jackknife product differs by a second-order remainder. Entries of matmul / inv / det are run through the model of '
+            'derived_observable and compared; each identity is evaluated on the implementation in Obs / CObs arithmetic (value and every fluctuation).',
+            'Lean kernel; standard axioms; LAPACK and autograd vjps of the linalg functions by contract (identities measured each run); generator-bounded search.', '5 C10'),
 }
 
 NOT_YET = {}
